@@ -193,6 +193,8 @@ async fn serve(
 
     info!("Client disconnected: {client_id} ({remote_addr})");
 
+    #[cfg(feature = "verif")]
+    crate::verif::perturb("before-disconnected").await;
     worterbuch
         .disconnected(client_id, Some(remote_addr))
         .await?;
